@@ -333,6 +333,13 @@ theorem share_single_word_error (slip39 : WordList) (hwl : SLIP39? = some slip39
 
 /-! ## extracted constants the model's literals stand for -/
 
+/-- the RS1024 generator and customization string are those of SLIP-0039 -/
+theorem rs1024_is_slip39 :
+    Gen.rs1024Gen = [0xE0E040, 0x1C1C080, 0x3838100, 0x7070200, 0xE0E0009, 0x1C0C2412, 0x38086C24, 0x3090FC48,
+      0x21B1F890, 0x3F3F120] ∧ Gen.rsGenCount = 10 ∧ Gen.rsTopShift = 20 ∧ Gen.rsLowMask = 0xFFFFF ∧
+    Gen.rsWordBits = 10 ∧ Gen.parseCustomization = [115, 104, 97, 109, 105, 114] := by
+  decide
+
 theorem layout_constants :
     Gen.shareParseInts = [0, 5, 1, 5, 1, 31, 2, 6, 2, 2, 15, 1, 2, 3, 2, 3, 8, 1, 3, 4, 15, 3, 15, 1, 0, 4, 3,
       10, 7, 10, 16, 16, 0, 128] ∧
